@@ -218,6 +218,9 @@ pub fn bfs_roots(
             res.fixpoint = true;
             break;
         }
+        if mc::past_soft_deadline() {
+            break;
+        }
         let jobs: Vec<(usize, usize)> = (0..frontier.len())
             .flat_map(|n| (0..alphabet.len()).map(move |e| (n, e)))
             .filter(|(n, e)| frontier[*n].1 + cost(&alphabet[*e]) <= cost_bound)
